@@ -72,13 +72,14 @@ class ParseLine(Harness):
         ref = ref_line(ex, s)
         txt = ''.join(chr(ex.get_model().get(f'c{i}', 0x61)) for i in range(self.n))
         smp = {'line': txt, 'reference': ref[0]}
+        stubbed = any(k.startswith('parse_ok_') for k in ex.get_model())
         if r.variant == 1:
             ex.require(ref[0] == 'err', 'line-verdict', f'parse_line fails, hosts(5) reading gives {ref[0]}')
-            return {'cls': 'Err', 'sample': smp}
+            return {'cls': 'Err', 'vs': None if stubbed else (txt, 'Err'), 'sample': smp}
         o = r.fields[0].v
         if o.variant == 0:
             ex.require(ref[0] == 'none', 'line-verdict', f'parse_line yields no mapping, hosts(5) reading gives {ref[0]}' + (' (names: %d)' % len(ref[2]) if ref[0] == 'map' else ''))
-            return {'cls': 'None', 'sample': smp}
+            return {'cls': 'None', 'vs': None if stubbed else (txt, 'None'), 'sample': smp}
         ex.require(ref[0] == 'map', 'line-verdict', f'parse_line yields a mapping, hosts(5) reading gives {ref[0]}')
         addr = o.fields[0].v.fields[0].v; names = o.fields[0].v.fields[1].v
         ex.require(seq(ex, addr, ref[1]), 'line-content', 'address differs')
@@ -86,6 +87,24 @@ class ParseLine(Harness):
         for g in got: ex.require(z_or(*[labels_eq(g, x) for x in ref[2]]), 'line-content', 'a name that is not on the line')
         for x in ref[2]: ex.require(z_or(*[labels_eq(g, x) for g in got]), 'line-content', 'a name on the line is missing from the mapping')
         return {'cls': 'Some-%d' % min(len(ref[2]), 2), 'sample': smp}
+
+    def native_validate(self, world, vsamples):
+        import c03
+        rows = ',\n'.join('(%s, "%s")' % (rust_str(t), c) for t, c in vsamples)
+        src = '''use super::*;
+#[test]
+fn replay() {
+    let cases: Vec<(&str, &str)> = vec![%s];
+    let mut bad = 0;
+    for (i, (t, want)) in cases.iter().enumerate() {
+        let got = match parse_line(t) { Err(_) => "Err", Ok(None) => "None", Ok(Some(_)) => "Some" };
+        if &got != want { bad += 1; println!("VERIF-MISMATCH case {i}: interpreter {want}, native {got}, line {t:?}"); }
+    }
+    println!("VERIF-CHECKED {} mismatches {}", cases.len(), bad);
+    assert!(bad == 0);
+}
+''' % rows
+        return c03.cross_validate(world, 'dns-types', HD_RS, src, len(vsamples))
 
     def finding_key(self, v):
         m = v.get('model') or {}
@@ -105,7 +124,16 @@ class ParseLine(Harness):
             mm = _re.match(r'^([ \t]*)([^ \t#]+)(.*)$', txt, _re.S)
             if mm and models_str.parse_ip(mm.group(2), 'IpAddr').variant == 1 and '%' not in mm.group(2)[1:] and mm.group(2).isascii():
                 v4 = any(k.startswith('ip_is_v4') and m[k] for k in m)
-                txt = mm.group(1) + ('1.2.3.4' if v4 else '::1') + mm.group(3)
+                import ipaddress as _ip
+                if v4:
+                    o = [m[k] for k in sorted((k for k in m if k.startswith('ip4!')), key=lambda k: int(k.split('!')[1]))][:4]
+                    addr = '.'.join(map(str, o)) if len(o) == 4 else '1.2.3.4'
+                else:
+                    g = [m[k] for k in sorted((k for k in m if k.startswith('ip6!')), key=lambda k: int(k.split('!')[1]))][:8]
+                    n_ = 0
+                    for x in g: n_ = (n_ << 16) | x
+                    addr = str(_ip.IPv6Address(n_)) if len(g) == 8 else '::1'
+                txt = mm.group(1) + addr + mm.group(3)
         ex = Exec(world)
         ref = ref_line(ex, Str.lit(txt))
         if ref[0] == 'map':
@@ -121,7 +149,9 @@ fn replay() {
     let kind = "%s";
     match (&r, kind) {
         (Err(_), "err") | (Ok(None), "none") => (),
-        (Ok(Some((_, names))), "map") => {
+        (Ok(Some((addr, names))), "map") => {
+            let want_addr: IpAddr = line.split('#').next().unwrap().split_whitespace().next().unwrap().parse().expect("address token");
+            assert!(addr == &want_addr, "VERIF-VIOLATED address {:?}, the line says {:?}", addr, want_addr);
             let mut got: Vec<Vec<Vec<u8>>> = names.iter().map(|n| n.labels.iter().map(|l| l.octets().to_vec()).collect()).collect(); got.sort();
             let mut want: Vec<Vec<Vec<u8>>> = vec![%s]; want.sort(); want.dedup();
             assert!(got == want, "VERIF-VIOLATED names {:?} want {:?}", got, want);
@@ -212,6 +242,27 @@ class Conversions(Harness):
 
     def finding_key(self, v): return f"C14 conversions {v.get('tag')}"
 
+    def replay(self, world, v):
+        m = v.get('model') or {}
+        n4 = m.get('n4', 0); n6 = m.get('n6', 0)
+        L = ['let mut h = Hosts::new();']
+        for i in range(n4):
+            last = 1 if self.concrete_addr else m.get(f'v4a{i}', 0)
+            L.append('h.v4.insert(DomainName::from_dotted_string("%s.").unwrap(), std::net::Ipv4Addr::new(10, 0, %d, %d));' % (chr(m.get(f'v4n{i}', 0x61)), i, last))
+        for i in range(n6):
+            last = (i + 1) if self.concrete_addr else m.get(f'v6a{i}', 0)
+            L.append('h.v6.insert(DomainName::from_dotted_string("%s.").unwrap(), std::net::Ipv6Addr::new(0xfd00, 0, 0, 0, 0, 0, 0, %d));' % (chr(m.get(f'v6n{i}', 0x61)), last))
+        if self.text:
+            L.append('let text = h.serialise(); let back = Hosts::deserialise(&text);')
+            L.append('assert!(back.as_ref().ok() == Some(&h), "VERIF-VIOLATED hosts text round trip: wrote {:?}, read back {:?}", text, back);')
+        else:
+            L.append('let z = Zone::from(h.clone());')
+            L.append('for (n, a) in &h.v4 { match z.resolve(n, QueryType::Record(RecordType::A)) { Some(ZoneResult::Answer { rrs }) => assert!(rrs.len() == 1 && rrs[0].ttl == 5 && rrs[0].rtype_with_data == RecordTypeWithData::A { address: *a }, "VERIF-VIOLATED zone answer {:?}", rrs), o => panic!("VERIF-VIOLATED zone answer {:?}", o) } }')
+            L.append('for (n, a) in &h.v6 { match z.resolve(n, QueryType::Record(RecordType::AAAA)) { Some(ZoneResult::Answer { rrs }) => assert!(rrs.len() == 1 && rrs[0].ttl == 5 && rrs[0].rtype_with_data == RecordTypeWithData::AAAA { address: *a }, "VERIF-VIOLATED zone answer {:?}", rrs), o => panic!("VERIF-VIOLATED zone answer {:?}", o) } }')
+            L.append('assert!(Hosts::try_from(z).ok() == Some(h.clone()), "VERIF-VIOLATED Hosts -> Zone -> Hosts differs");')
+        src = 'use super::*;\nuse crate::hosts::types::*;\nuse crate::zones::types::*;\nuse crate::protocol::types::*;\n#[allow(unused_imports)]\n#[test]\nfn replay() {\n' + '\n'.join(' ' + l for l in L) + '\n}\n'
+        return run_replay(world, 'C14', self.name, src, HD_RS, {'model': m, 'tag': v.get('tag')})
+
 
 def harnesses(world, tier, seed):
     q = tier == 'quick'
@@ -223,4 +274,4 @@ def harnesses(world, tier, seed):
         Conversions(name='hosts-zone-hosts', text=False, concrete_addr=False, bounds={'mappings': 'v4 0..2, v6 0..1', 'names': '1-label, symbolic over {a,b} (coincidences solver-decided)', 'addresses': 'last octet/segment symbolic'}, expected_classes=('zone',)),
         Conversions(name='hosts-text-hosts', text=True, concrete_addr=True, bounds={'mappings': 'v4 0..2, v6 0..1', 'names': '1-label symbolic over {a,b}', 'addresses': 'concrete'}, expected_classes=('text',)),
     ]
-    return hs, (420 if q else 2400), None
+    return hs, (1500 if q else 5400), None
